@@ -90,6 +90,10 @@ pub fn build(full_name: &str, level: u8) -> Option<Scenario> {
                 nd.max_size_per_msg = 0; // one entry per append
                 nd.pre_vote = n.contains("-pv");
                 nd.check_quorum = n.contains("-cq");
+                if n.contains("-async") {
+                    nd.mode = AppMode::Async;
+                    nd.loose_async = n.contains("-loose");
+                }
             }
             let n = nn;
             s.crashable = (1..=n as u8).collect();
@@ -160,9 +164,18 @@ pub fn build(full_name: &str, level: u8) -> Option<Scenario> {
                     Action::Settle0(2),
                     Action::DropAll,
                 ];
+                if name.contains("-prio") {
+                    // node 1 holds two local-only term-1 entries (a longer log ending in an
+                    // older term); the voters 2 and 3 have a higher priority than node 1
+                    s.prefix.insert(5, Action::Propose(1, 0));
+                    s.prefix.insert(6, Action::Settle0(1));
+                    s.prefix.insert(7, Action::DropAll);
+                    s.prefix.push(Action::SetPrio(2, 1));
+                    s.prefix.push(Action::SetPrio(3, 1));
+                }
                 s.timeoutable = vec![1];
                 s.clients_at = vec![1];
-                s.crashable = vec![2];
+                s.crashable = if name.contains("-prio") { vec![] } else { vec![2] };
                 let (to, props, beats, drops, dups, crashes, mi) = match l {
                     0 => (1, 0, 1, 0, 0, 0, 4),
                     1 => (1, 1, 1, 1, 0, 0, 5),
@@ -347,6 +360,70 @@ pub fn build(full_name: &str, level: u8) -> Option<Scenario> {
                 c.cuts = cuts;
                 c.crashes = crashes;
                 c.lazy = if n.contains("-lazy") { lazy } else { 0 };
+            });
+        }
+        // ------------------------------------------------------------ OVER
+        // 3 voters, node 3 persists asynchronously; prefix: 1 leader, no-op committed. The
+        // leader may crash in the middle of a Ready round (entries sent, not written), another
+        // node takes over and overwrites the suffix node 3 has accepted but not yet persisted;
+        // one persistence notification then covers both Readies; node 3 may campaign afterwards.
+        n if n.starts_with("over") => {
+            s = Scenario::new(name, 3);
+            s.nodes[2].mode = AppMode::Async;
+            s.nodes[2].loose_async = n.contains("-loose");
+            if n.contains("-sz") {
+                for nd in s.nodes.iter_mut() {
+                    nd.max_size_per_msg = 0;
+                }
+            }
+            // the leader's Ready round for entries 2 and 3 is cut after the send: only node 3 gets
+            // them (Ready accepted asynchronously, not yet persisted); node 1 restarts without them
+            s.prefix = vec![
+                Action::Timeout(1),
+                Action::Settle,
+                Action::Propose(1, 0),
+                Action::Propose(1, 0),
+                Action::Ready(1, Cut::Writes(0)),
+                Action::Restart(1),
+                Action::Deliver(1, 3),
+                Action::Deliver(1, 3),
+                Action::DropAll,
+                Action::ReadyAsync(3),
+            ];
+            s.clients_at = vec![2];
+            s.crashable = vec![];
+            s.timeoutable = vec![2, 3];
+            if l == 0 {
+                // level 0: node 2's election (with node 1's vote) is scripted as well
+                s.prefix.extend(vec![
+                    Action::Timeout(2),
+                    Action::Settle0(2),
+                    Action::Deliver(2, 1),
+                    Action::Settle0(1),
+                    Action::Deliver(1, 2),
+                    Action::Settle0(2),
+                ]);
+                s.timeoutable = vec![3];
+                if n.contains("-two") {
+                    // the new leader's overwrite reaches as far as the unpersisted suffix did
+                    s.prefix.extend(vec![Action::Propose(2, 0), Action::Settle0(2)]);
+                }
+            }
+            let (props, to, cuts, crashes, drops, mi) = match l {
+                0 => (0, 1, 0, 0, 0, 4),
+                1 => (0, 2, 0, 0, 0, 4),
+                2 => (1, 2, 0, 0, 0, 5),
+                3 => (1, 2, 0, 0, 1, 5),
+                _ => (2, 3, 0, 0, 1, 6),
+            };
+            s.max_term = 3 + (l as u64) / 3;
+            s.max_index = mi;
+            s.caps = caps(|c| {
+                c.props = props;
+                c.timeouts = to;
+                c.cuts = cuts;
+                c.crashes = crashes;
+                c.drops = drops;
             });
         }
         // ------------------------------------------------------------ REPL / FLOW
@@ -722,6 +799,12 @@ pub fn build(full_name: &str, level: u8) -> Option<Scenario> {
                     nd.apply_lag = true;
                 }
             }
+            if n.contains("-unp") {
+                // apply-before-persist with a generous limit
+                for nd in s.nodes.iter_mut() {
+                    nd.max_apply_unpersisted = 5;
+                }
+            }
             let req = n.contains("-req");
             if n.contains("-async") {
                 // the lagging follower persists asynchronously
@@ -754,6 +837,11 @@ pub fn build(full_name: &str, level: u8) -> Option<Scenario> {
                 if n.contains("-lazy") || n.contains("-lag") {
                     c.timeouts = to.max(1);
                     c.lazy = 2;
+                }
+                if n.contains("-unp") {
+                    // keep the space for the snapshot-then-append race small
+                    c.timeouts = 0;
+                    c.snapfail = 0;
                 }
                 if req {
                     // the follower asks for a snapshot; stale and duplicated MsgSnapshot around it
@@ -824,6 +912,45 @@ pub fn build(full_name: &str, level: u8) -> Option<Scenario> {
                 c.ccs = ccs;
                 c.reorders = reorders;
             });
+            if n.contains("-rm1") {
+                // voters {1,2}; the leader 1 removed itself and keeps leading (raft-rs lets it);
+                // the only remaining voter 2 may elect itself and commit on its own
+                s = Scenario { nodes: s.nodes[..2].to_vec(), voters: vec![1, 2], ..s };
+                s.cc_menu = vec![CcSpec::V1(1, 1)];
+                s.prefix = vec![Action::Timeout(1), Action::Settle, Action::ProposeCc(1, 0), Action::Settle];
+                s.clients_at = vec![1, 2];
+                s.timeoutable = vec![2];
+                s.crashable = vec![];
+                s.fault_types = vec![];
+                s.caps = caps(|c| {
+                    c.reads = 1 + (l as u8) / 2;
+                    c.props = (l as u8).min(1);
+                    c.timeouts = 1;
+                    c.beats = (l as u8).min(2);
+                });
+            }
+            if n.contains("-single") {
+                // one voter and a learner; fsync only when must_sync says so; several inputs per
+                // Ready: a restarted single voter leads a new term before its no-op is persisted
+                s = Scenario { nodes: s.nodes[..2].to_vec(), voters: vec![1], learners: vec![2], ..s };
+                for nd in s.nodes.iter_mut() {
+                    nd.skip_sync_when_allowed = true;
+                }
+                s.inputs_per_ready = 2;
+                s.prefix = vec![Action::Timeout(1), Action::Settle, Action::Propose(1, 0), Action::Settle];
+                s.clients_at = vec![1, 2];
+                s.timeoutable = vec![1];
+                s.crashable = vec![1];
+                s.fault_types = vec![];
+                s.caps = caps(|c| {
+                    c.reads = 1 + (l as u8) / 2;
+                    c.props = (l as u8).min(1);
+                    c.timeouts = 1;
+                    c.crashes = 1;
+                    c.cuts = (l as u8).min(1);
+                    c.lazy = 2;
+                });
+            }
         }
         // ------------------------------------------------------------ XFER
         n if n.starts_with("xfer") => {
